@@ -34,7 +34,7 @@ pub struct PropPlan {
 pub static PLANS: &[PropPlan] = &[PropPlan {
     prop: "C05",
     level: "fault_enumeration",
-    sims: &[SimPlan { sim: "io", quick_runs: 2_500_000, thorough_runs: 12_000 }],
+    sims: &[SimPlan { sim: "io", quick_runs: 2_500_000, thorough_runs: 40_000 }],
     rule: "each run draws a typed value tree (all serde data-model entry points: every integer width, f32/f64 incl. non-finite, char, strings placed 0..40 bytes before a PROT_NONE page, bytes, options, unit/newtype/tuple/struct variants, seqs/maps with and without length hints, every map-key kind incl. the ones that must be rejected, collect_str, embedded Value/RawNumber/LazyValue/OwnedLazyValue, a Serialize impl that fails), compact or pretty, a writer stack and a fault plan (permanent error / Ok(0) after n bytes, error at call c, reserve_with / flush_len error, plus transient short writes and EINTR). One run in six sends a second value through the same writer (two calls, or one reused Serializer): the output must be the two renderings back to back and a fault may strike in either. Quick: one drawn fault point per run. Thorough: for every base run with a fallible sink, EVERY byte offset 0..=len and every call index is enumerated for every fault kind (exhaustive per value, not globally; for outputs longer than 1.5 KB - the rare page-spanning strings - the first and last 400 offsets and 700 evenly spread ones). Non-trivial = an injected fault fired; distinct = distinct hash of (value, mode, stack, plan, outcome)",
     assumptions: &[
         "float tokens are compared by value (the spelling of a float is not specified by the property): the token must match the JSON number grammar and parse back to the same bits",
